@@ -1004,3 +1004,173 @@ func ruleHashEq(w *World, r *Report, nt *nodeTypes) {
 		r.Ok(rule, nt.tag+":no-hash-comparison", "-", "no two hashCode results are compared anywhere in the package")
 	}
 }
+
+// ruleNodeCompare — R-NODECMP. Two nodes are compared with Go's == / != only
+// inside the Equals of a scalar type, between two values of that very type
+// (after the assertion). Anywhere else on the Equals/Diff/Patch side a Go
+// comparison of JsonNode interface values (or of values asserted out of
+// elements) bypasses Equals: it ignores the options (Precision inside arrays),
+// panics on uncomparable dynamic types (maps, slices) and tells a raw array
+// from its dispatched view.
+func ruleNodeCompare(w *World, r *Report, nt *nodeTypes) {
+	const rule = "R-NODECMP"
+	isNode := map[string]bool{}
+	for _, t := range nt.names {
+		isNode[t] = true
+	}
+	nodeTyped := func(t types.Type) bool {
+		if n := namedOf(t); n != nil && n.Obj().Pkg() == nt.pkg.Pkg {
+			if isNode[n.Obj().Name()] || n.Obj().Name() == "JsonNode" {
+				return true
+			}
+		}
+		return false
+	}
+	own := map[*ssa.Function]types.Type{}
+	for _, t := range nt.names {
+		fn := nt.method(t, "Equals")
+		switch fn.Params[0].Type().Underlying().(type) {
+		case *types.Basic:
+			own[fn] = fn.Params[0].Type()
+		}
+	}
+	n := 0
+	var bad []string
+	// scope: what the Equals, diff and hashCode methods of the node types reach by static calls
+	scope := map[*ssa.Function]bool{}
+	var work []*ssa.Function
+	for _, t := range nt.names {
+		for _, m := range []string{"Equals", "diff", "hashCode"} {
+			if fn := w.MethodOpt(nt.pkg, t, m); fn != nil && fn.Blocks != nil && !scope[fn] {
+				scope[fn] = true
+				work = append(work, fn)
+			}
+		}
+	}
+	for len(work) > 0 {
+		f := work[0]
+		work = work[1:]
+		withClosures(f, func(g *ssa.Function) {
+			scope[g] = true
+			allInstrs(g, func(in ssa.Instruction) {
+				if c, ok := in.(ssa.CallInstruction); ok {
+					if sf := staticCallee(c); sf != nil && sf.Blocks != nil && fnPkg(sf) == nt.pkg.Pkg && !scope[sf] && sf.Parent() == nil {
+						scope[sf] = true
+						work = append(work, sf)
+					}
+				}
+			})
+		})
+	}
+	for fn := range scope {
+		if fn.Blocks == nil || fn.Synthetic != "" {
+			continue
+		}
+		n++
+		allInstrs(fn, func(in ssa.Instruction) {
+			bo, ok := in.(*ssa.BinOp)
+			if !ok || (bo.Op != token.EQL && bo.Op != token.NEQ) {
+				return
+			}
+			if !nodeTyped(bo.X.Type()) && !nodeTyped(bo.Y.Type()) {
+				return
+			}
+			// nil checks of an interface are not value comparisons
+			if isNilConst(bo.X) || isNilConst(bo.Y) {
+				return
+			}
+			if t, isOwn := own[fn]; isOwn && types.Identical(bo.X.Type(), t) && types.Identical(bo.Y.Type(), t) {
+				return
+			}
+			bad = append(bad, fmt.Sprintf("%s compares nodes with %s at %s", fnName(fn), bo.Op, w.Pos(bo.Pos())))
+		})
+	}
+	sort.Strings(bad)
+	if len(bad) > 3 {
+		bad = bad[:3]
+	}
+	r.Check(len(bad) == 0, rule, nt.tag+":nodes-compared-through-Equals-only", "-",
+		fmt.Sprintf("none of the %d functions the Equals/diff/hashCode methods reach compares two nodes with == / != outside a scalar type's own Equals", n),
+		strings.Join(bad, "; ")+": a Go comparison of nodes bypasses Equals — the options (Precision) are not consulted for the values compared this way, so numbers within eps inside an array or object compare unequal while the same numbers compare equal on their own")
+}
+
+// ruleHashInjective — R-HASHINJ. The digest of a scalar (string, number) is
+// computed from an injective encoding of the value: between the receiver and
+// the bytes handed to the digest primitive there are only value-preserving
+// steps (conversions between types of the same kind, math.Float64bits,
+// encoding/binary writes, string <-> []byte, appends and copies). A lossy
+// step — float -> integer conversion, rounding, lower-casing, truncation,
+// arithmetic — maps different values to the same digest, and SET/MULTISET
+// equality and list diffs compare digests.
+func ruleHashInjective(w *World, r *Report, nt *nodeTypes) {
+	const rule = "R-HASHINJ"
+	for _, t := range nt.names {
+		fn := nt.method(t, "hashCode")
+		recv := fn.Params[0]
+		b, ok := recv.Type().Underlying().(*types.Basic)
+		if !ok || b.Info()&(types.IsFloat|types.IsString|types.IsInteger) == 0 {
+			continue
+		}
+		cls := nt.classifyHash(fn, 0)
+		if cls.kind != "digest" || cls.input == nil {
+			continue
+		}
+		r.Fn(fnName(fn))
+		d := NewDeriv(w, fn)
+		lossy := ""
+		for v := range d.Visited(cls.input) {
+			switch x := v.(type) {
+			case *ssa.Convert:
+				from, okf := x.X.Type().Underlying().(*types.Basic)
+				to, okt := x.Type().Underlying().(*types.Basic)
+				if okf && okt {
+					switch {
+					case from.Info()&types.IsFloat != 0 && to.Info()&types.IsInteger != 0:
+						lossy = "conversion of a float to an integer at " + w.Pos(x.Pos())
+					case from.Info()&types.IsInteger != 0 && to.Info()&types.IsFloat != 0:
+						lossy = "conversion of an integer to a float at " + w.Pos(x.Pos())
+					case from.Info()&types.IsFloat != 0 && to.Info()&types.IsFloat != 0 && to.Kind() == types.Float32:
+						lossy = "narrowing to float32 at " + w.Pos(x.Pos())
+					case from.Info()&types.IsInteger != 0 && to.Info()&types.IsInteger != 0 && w.sizeOf(to) < w.sizeOf(from):
+						lossy = "narrowing integer conversion at " + w.Pos(x.Pos())
+					}
+				}
+			case *ssa.BinOp:
+				if bt, ok := x.Type().Underlying().(*types.Basic); ok && bt.Info()&(types.IsFloat|types.IsInteger) != 0 {
+					switch x.Op {
+					case token.ADD, token.SUB, token.MUL, token.QUO, token.REM, token.AND, token.OR, token.XOR, token.SHL, token.SHR, token.AND_NOT:
+						if !d.HasRoot(x, recv) {
+							continue
+						}
+						lossy = fmt.Sprintf("arithmetic (%s) on the value at %s", x.Op, w.Pos(x.Pos()))
+					}
+				}
+			case *ssa.Call:
+				name := calleeFullName(x)
+				if name == "" || !d.HasRoot(x, recv) {
+					continue
+				}
+				switch {
+				case name == "math.Float64bits", name == "math.Float32bits", strings.HasPrefix(name, "encoding/binary."), strings.HasPrefix(name, "(encoding/binary."),
+					strings.HasPrefix(name, "(*bytes.Buffer)."), name == "bytes.NewBuffer", strings.HasPrefix(name, "unsafe."):
+				case nt.isHashPrimitive(staticCallee(x)):
+				default:
+					if sf := staticCallee(x); sf != nil && fnPkg(sf) == nt.pkg.Pkg {
+						continue // package helpers are classified on their own
+					}
+					if _, isB := x.Call.Value.(*ssa.Builtin); isB {
+						continue
+					}
+					lossy = "the value passes through " + name + " at " + w.Pos(x.Pos())
+				}
+			}
+		}
+		r.Check(lossy == "", rule, fnName(fn), w.Pos(fn.Pos()),
+			"the digest input is an injective encoding of the value (only value-preserving conversions between the receiver and the digest)",
+			"the digest input is not an injective encoding of the value: "+lossy+" — different values get the same digest, so they are the same member of a set or multiset and a list diff matches them as common elements")
+	}
+}
+
+func (w *World) sizeOf(b *types.Basic) int64 {
+	return types.SizesFor("gc", "amd64").Sizeof(b)
+}
